@@ -1,6 +1,7 @@
 INIT Init
 NEXT Next
 CONSTANTS MaxDepth = 2
+ ExtraLeaves <- NoExtra
  LeafMode = "mapped"
  WithPairs = FALSE
 INVARIANT Emit
